@@ -148,6 +148,26 @@ class Gen:
             out.append({r.choice(tops): o})
         return out
 
+    def pseudo_merge(self):
+        """objects under two or three different keys that get merged into one model, where one field holds a string
+        pseudo-type next to another type in the first object kind and the same pseudo-type or nothing in the later ones"""
+        r = self.r
+        ps = r.choice([["9.99", "19.50"], ["true", "false"], ["2.5", "1e3"], ["1", "2"]])
+        other = r.choice([10, 1.5, None, [1]])
+        tops = r.sample(["x", "y", "z"], r.randint(2, 3))
+        out = []
+        for ti, t in enumerate(tops):
+            if ti == 0:
+                vals = [ps[0], other]
+            else:
+                vals = [ps[1], r.choice(["missing", ps[0], None])]
+            for v in vals:
+                o = {"g": 1, "h": 2, "i": 3}
+                if v != "missing":
+                    o["f"] = v
+                out.append({t: o})
+        return out
+
     def literal_heavy(self):
         """samples whose literal sets come close to the limits and OVERLAP: a key holding p distinct short strings
         (p around MAX_LITERALS = 15) with repeats, a list of strings drawing from the same pool, and two nested objects
